@@ -151,6 +151,29 @@ Proof.
     destruct (lex3_total (frk x) (frk y)) as [H|[H|H]]; rewrite H; auto.
 Qed.
 
+(** * Every comparison with a NaN is false: NaNs are inert for the scans *)
+Lemma is_nan_SF x : PrimFloat.is_nan x = true -> Prim2SF x = S754_nan.
+Proof.
+  intros H. destruct (Prim2SF x) eqn:E; try reflexivity;
+  (assert (N : not_nan x) by (apply SF_not_nan; rewrite E; discriminate));
+  unfold not_nan in N; congruence.
+Qed.
+Lemma SFcompare_nan_l y : SFcompare S754_nan y = None.
+Proof. reflexivity. Qed.
+Lemma SFcompare_nan_r y : SFcompare y S754_nan = None.
+Proof. destruct y; reflexivity. Qed.
+
+Definition not_nanb (x : float) : bool := negb (PrimFloat.is_nan x).
+
+Theorem fops_nan_inert : inert_outside fops not_nan not_nanb.
+Proof.
+  split.
+  - intros x. unfold not_nanb, not_nan. destruct (PrimFloat.is_nan x); cbn; split; congruence.
+  - intros x y H. unfold not_nanb in H. apply negb_false_iff in H. apply is_nan_SF in H.
+    cbn [ltb eqb fops]. rewrite !ltb_spec, !eqb_spec. unfold SFltb, SFeqb.
+    rewrite H, SFcompare_nan_l, SFcompare_nan_r. repeat split.
+Qed.
+
 (* NaN really is excluded for a reason: the laws fail on it *)
 Lemma nan_breaks_refl : PrimFloat.eqb f_nan f_nan = false.
 Proof. reflexivity. Qed.
